@@ -12,6 +12,11 @@ CORPUS = [["a\n", "b\n"], ["a # c\n", "b\n"], ["cat <<E\nx\nE\n", "b\n"], ["a |\
 
 TEMPLATES = ["cat %s\n", "cat %s %s\n", "cat %s %s %s\n", "cat %s; cat %s # c\n", "{ cat %s; cat 3%s; }\n", "cat %s | cat %s &&\n\x00  echo x\n", "cat %s &&\n\x00cat %s\n",
              "if cat %s; then cat %s; fi\n", "x=$(cat %s\n\x00) y %s\n",
+             # a here-document pending at a newline that a compound-command header reads itself
+             "cat %s; for i\n\x00do x; done\n", "cat %s | for i\n\x00do cat %s; done\n", "cat %s; for i in 1 2\n\x00do x; done\n", "cat %s; for i\n\x00in 1; do x; done\n",
+             "cat %s; for i in 1;\n\x00do x; done\n", "cat %s; for i;\n\x00do x; done\n", "cat %s; while a\n\x00do b; done\n", "cat %s; if a\n\x00then b; fi\n",
+             "cat %s; case x in\n\x00a) b;; esac\n", "cat %s; case x\n\x00in a) b;; esac\n", "cat %s; f()\n\x00{ a; }\n", "cat %s; case x in a)\n\x00b;; esac\n",
+             "cat %s; case x in a) b;;\n\x00esac\n", "cat %s; {\n\x00a; }\n", "cat %s; (\n\x00a )\n", "cat %s; ! \\\n a\n", "cat %s; if a; then\n\x00b; else\n c %s; fi\n",
              # a comment or a line continuation at a line break that the lexer skips itself, here-documents pending
              "cat %s | # c\n\x00cat\n", "cat %s && # note\n\x00cat %s\n", "cat %s ||#\n\x00b\n", "cat %s | \\\n cat\n", "cat %s &&\\\n\tcat %s\n",
              "cat %s | \\\n # c\n\x00cat\n", "case x in a) cat %s ;; # c\n\x00esac\n", "case x in a) cat %s ;; \\\n esac\n"]
